@@ -66,6 +66,10 @@ type Kind struct {
 	// Class is the coarse operand kind used in violation signatures (several Kinds that differ only in
 	// the shape of op0 share a Class); empty: Name.
 	Class string
+	// History: besides the first kind of each row, this kind is also used as "previous call on the same
+	// receiver" in the quick tier (kinds that leave characteristic content in scratch buffers, e.g. a vector
+	// operand with non-zero imaginary parts going through the evaluator's encoder).
+	History bool
 	// ClassOf, when set, overrides Class per environment (a defect that exists only for some parameter
 	// shapes — e.g. two or more special primes — must not share a signature with the other shapes).
 	ClassOf func(e *Env) string
